@@ -229,3 +229,33 @@ Definition bad_rules (l : list rule) : list string := map r_name (filter (fun r 
 Definition cache := list (nat * value).
 Fixpoint lookup (k : nat) (c : cache) : option value :=
   match c with [] => None | (k', v) :: r => if Nat.eqb k k' then Some v else lookup k r end.
+
+(* RewriteRuleSet.apply_to_model keeps the naming state for values created by replacements on the
+   rule-set object (`_used_value_names`, `_value_name_counter`); the default rule set is a module-level
+   object shared by all rewriter.rewrite calls of the process.  As read on 2026-09-26 the method re-initialises
+   only `_used_value_names`: the counter continues where the previous model left it. *)
+Definition ruleset_body (reset_counter : bool) : stmt :=
+  seq [Write "_used_value_names" [];
+       (if reset_counter then Write "_value_name_counter" [] else Skip);
+       Loop ["rules"]
+         (seq [Write "_value_name_counter" ["_value_name_counter"];
+               Write "_used_value_names" ["_used_value_names"; "_value_name_counter"]]);
+       Ret true []].
+
+Definition ruleset_as_read : rule :=
+  {| r_name := "RewriteRuleSet.apply_to_model (as read: counter not reset)"; r_config := ["rules"];
+     r_check := ruleset_body false; r_rewrite := Skip |}.
+Definition ruleset_reset : rule :=
+  {| r_name := "RewriteRuleSet.apply_to_model (counter reset per model)"; r_config := ["rules"];
+     r_check := ruleset_body true; r_rewrite := Skip |}.
+
+(* the state __init__ leaves: rules set, no names in use, counter 0 *)
+Definition ruleset_init : state :=
+  fun f => if String.eqb f "rules" then Some 1
+           else if String.eqb f "_value_name_counter" then Some 0
+           else if String.eqb f "_used_value_names" then Some 0 else None.
+
+(* an oracle for the witness: the loop runs while fewer than 6 values have been computed; every value is
+   1 + the sum of what was read (so the counter counts) *)
+Definition counting_oracle : oracle :=
+  fun tr vs => if Nat.ltb (List.length tr) 6 then Some (1 + fold_right Nat.add 0 vs) else Some 0.
